@@ -77,11 +77,27 @@ def run(ctx):
             sites_ = list(q.struct_sites(g, 'VacantEntry'))
             # every way of handing out a vacant entry (there may be one per kind of key) uses the number of keys so far
             used = bool(sites_) and bool(lens) and all(any(strip_refs(fields.get('ind', ('other',))) == l_ for l_ in lens) for bi, st, fields in sites_)
+            if not used and not any('ind' in fields for bi, st, fields in sites_):
+                # no explicit index is handed out any more (the position in the insertion-ordered map itself is used)
+                ctx.anchor_lost(rule, '%s::entry: the index given to a vacant entry' % g.j.get('impl_self').split('<')[0], 'no VacantEntry { ind: .. } built here')
+                continue
             ctx.verdict(used, rule, '%s:%s:index-is-length' % (rule, g.j.get('impl_self').split('<')[0]), 'a new key gets index = number of keys inserted before it', g.where(0), 'VacantEntry.ind = self.map.len(): %s' % used)
         if name.endswith('::into_iter') and g.j.get('impl_self', '').startswith('compact::') and 'Builder' in g.j.get('impl_self', ''):
             ctx.touch(g)
             ok = any(short(p) == 'into_iter' and 'indexmap' in (p + t['callee'].get('def', '') + ' '.join(t['callee'].get('args', []))) for bi, t, p in g.calls())
             ctx.verdict(ok, rule, '%s:%s:yields-map-order' % (rule, g.j.get('impl_self').split('<')[0]), 'the builder is consumed in the map\'s own (insertion) order', g.where(0), 'delegates to IndexMap::into_iter: %s' % ok)
+    # the builders' own iterators hand the entries out front to back
+    n_it = 0
+    for name, g in lib.fns.items():
+        if facts.is_test_path(name) or g.is_closure or not name.endswith('::next') or not g.j.get('impl_self', '').startswith('compact::'):
+            continue
+        n_it += 1
+        ctx.touch(g)
+        inner = [short(p) for bi, t, p in g.calls() if short(p) in ('next', 'next_back', 'rev', 'pop', 'last', 'nth_back', 'swap_remove', 'remove')]
+        ctx.verdict(inner == ['next'], rule, '%s:%s:front-to-back' % (rule, g.j.get('impl_self').split('<')[0]), 'the builder\'s iterator yields the entries of the underlying map front to back (index order)', g.where(0),
+                    'advances the inner iterator with: %s' % inner, breaks='the table of infosets is permuted relative to the indices stored in the tree')
+    if n_it < 2:
+        ctx.anchor_lost(rule, 'compact: the two IntoIter::next implementations', 'found %d' % n_it)
     fr = ctx.fn('lib', 'Game::<I, A>::from_root', rule)
     if fr is not None:
         for bi, st, fields in q.struct_sites(fr, 'Game'):
